@@ -250,9 +250,19 @@ def build_rdms(p, env):
                 descriptors=desc, rdm_descriptors=rd, pattern_descriptors=pd)
 
 
+def _maybe_view(a):
+    """the same values as a view into a longer recording (a slice / a reshaped table), for a
+    deterministic half of the shapes: arrays handed to the library often do not own their data"""
+    if a.size and (a.shape[0] + a.shape[1]) % 2 == 0:
+        big = np.zeros((a.shape[0] + 2,) + a.shape[1:], dtype=a.dtype)
+        big[1:-1] = a
+        return big[1:-1]
+    return a
+
+
 def build_dataset(p, env):
     cont = p.get('cont', 'array')
-    return Dataset(np.array(p['meas'], dtype=float),
+    return Dataset(_maybe_view(np.array(p['meas'], dtype=float)),
                    descriptors=dict(p.get('desc', {})),
                    obs_descriptors={k: _desc(v, cont) for k, v in p.get('odesc', {}).items()},
                    channel_descriptors={k: _desc(v, cont) for k, v in p.get('cdesc', {}).items()})
@@ -261,7 +271,7 @@ def build_dataset(p, env):
 def build_tds(p, env):
     cont = p.get('cont', 'array')
     return TemporalDataset(
-        np.array(p['meas'], dtype=float),
+        _maybe_view(np.array(p['meas'], dtype=float)),
         descriptors=dict(p.get('desc', {})),
         obs_descriptors={k: _desc(v, cont) for k, v in p.get('odesc', {}).items()},
         channel_descriptors={k: _desc(v, cont) for k, v in p.get('cdesc', {}).items()},
